@@ -219,6 +219,11 @@ fn det_cases<X: Sx>(ctx: &Ctx, r: &mut impl RngCore, part: usize) -> Vec<(String
                 ("empty".into(), Some(vec![])),
                 ("none".into(), None),
                 ("200B".into(), Some(vec![b'a'; 200])),
+                // api_id || "SIG_GENERATOR_SEED_" crosses 255 octets at 237: RFC 9380 then hashes the DST
+                ("236B".into(), Some(vec![b'b'; 236])),
+                ("237B".into(), Some(vec![b'b'; 237])),
+                ("300B".into(), Some(vec![b'c'; 300])),
+                ("5000B".into(), Some(vec![b'd'; 5000])),
                 ("binary".into(), Some(vec![0x00, 0xff, 0x80, 0xc3, 0x28, 0xe2, 0x82, 0x41])),
                 ("binary2".into(), Some(vec![0x00, 0xff, 0x81, 0xc3, 0x28, 0xe2, 0x83, 0x41])),
                 ("other-suite".into(), Some(if X::ID == SuiteId::Sha { SuiteId::Shake.api_id() } else { SuiteId::Sha.api_id() })),
